@@ -16,7 +16,10 @@ use super::{
     TSetIdentifier, TStructIdentifier, TType, ThriftException, ZERO_COPY_THRESHOLD,
     error::ProtocolExceptionKind,
     new_protocol_exception,
-    rw_ext::{ReadExt, WriteExt, checked_container_size, read_exact_to_vec, split_to_checked},
+    rw_ext::{
+        ReadExt, WriteExt, checked_container_size, non_negative_container_size, read_exact_to_vec,
+        split_to_checked,
+    },
     varint_ext::VarIntProcessor,
 };
 
@@ -1200,7 +1203,7 @@ where
             Ok(TMapIdentifier::new(
                 key_type,
                 val_type,
-                element_count as usize,
+                non_negative_container_size(element_count)?,
             ))
         }
     }
@@ -1235,7 +1238,7 @@ where
         } else {
             self.read_varint_async::<u32>().await? as i32
         };
-        Ok((element_type, element_count as usize))
+        Ok((element_type, non_negative_container_size(element_count)?))
     }
 
     #[inline]
